@@ -308,7 +308,9 @@ impl File {
 
     async fn from_tokio_file(file: TokioFile) -> IOResult<Self> {
         let size = file.metadata().await?.len();
-        let synced_size = AtomicU64::new(size);
+        // Bytes found in an existing file are not known to be durable: the process that wrote them may have
+        // been stopped before it synced them. They count as dirty until the first sync of this file
+        let synced_size = AtomicU64::new(0);
         let size = AtomicU64::new(size);
         let std_file = file.try_into_std().expect("tokio file into std");
         #[cfg(pearl_verif)]
